@@ -59,7 +59,7 @@ def bulk_rule(ctx, rid="C10.3"):
     F = ctx.facts
     ctx.rule(rid, "the bulk loader refuses every existing database file (it is never a way to write under a live handle)")
     b = ctx.body(BULK_NEW)
-    ex = [c for c in b.calls() if c.name.endswith("::Path::exists") and 1 in bslice(b, op_local(c.args[0]), depth=10)[0]]
+    ex = [c for c in b.calls() if c.name.endswith(("::Path::exists", "::Path::is_file")) and c.args and 1 in bslice(b, op_local(c.args[0]), depth=10)[0]]
     ctx.floor(rid, "existence tests of the path parameter in BulkLoader::new", len(ex), 1)
     for c in ex:
         br = bool_branches(b, c.target) if c.target is not None else None
